@@ -1231,6 +1231,113 @@ def mk_ind(c):
     return Poly.atom(Atom("ind", (c,)))
 
 
+VARBOUND = {}     # index symbol name -> exclusive upper bound (set when index variables are created)
+PRODUCTS = []     # ordered pairs (major, minor) of dimension terms whose product is a row-major compound axis
+
+
+def bounded_var(bound, prefix="k"):
+    v = fresh(prefix)
+    VARBOUND[symname(v)] = P(bound)
+    return v
+
+
+def split_dim(dim):
+    dim = P(dim)
+    for a, b in PRODUCTS:
+        if equal(dim, a * b):
+            return a, b
+    return None
+
+
+def _divide_terms(p, B):
+    """p = q*B + r with q collecting the terms whose monomial is divisible by the monomial B"""
+    if not (B.is_monomial() and B.terms[0][1] == 1):
+        return None
+    bm = dict(B.terms[0][0])
+    q, r = {}, {}
+    for m, c in p.terms:
+        d = dict(m)
+        if all(d.get(a, 0) >= pw for a, pw in bm.items()):
+            for a, pw in bm.items():
+                d[a] -= pw
+            mm = tuple(sorted(((a, pw) for a, pw in d.items() if pw), key=lambda ap: ap[0].key))
+            q[mm] = q.get(mm, 0) + c
+        else:
+            r[m] = c
+    return Poly(q), Poly(r)
+
+
+def in_range(r, B):
+    """is 0 <= r < B known (from the bounds of index variables)?"""
+    r, B = P(r), P(B)
+    if r.is_zero():
+        return True
+    n = symname(r)
+    if n is not None and n in VARBOUND and equal(VARBOUND[n], B):
+        return True
+    cands = []
+    sp = split_dim(B)
+    if sp is not None:
+        cands.append(sp)
+    if B.is_monomial() and B.terms[0][1] == 1 and sum(pw for _a, pw in B.terms[0][0]) >= 2:
+        for a_, pw in B.terms[0][0]:
+            b2 = Poly.atom(a_)
+            cands.append((B * recip(b2), b2))
+    for b1, b2 in cands:
+        dv = _divide_terms(r, b2)
+        if dv is not None and not dv[0].is_zero():
+            a, b = dv
+            if in_range(a, b1) and in_range(b, b2):
+                return True
+    return False
+
+
+def mk_floordiv(p, B):
+    p, B = P(p), P(B)
+    if p.is_const() and B.is_const():
+        return Poly.const(p.const_value() // B.const_value())
+    dv = _divide_terms(p, B)
+    if dv is not None and in_range(dv[1], B):
+        return dv[0]
+    return app("floordiv", p, B, sort="int")
+
+
+def mk_mod(p, B):
+    p, B = P(p), P(B)
+    if p.is_const() and B.is_const():
+        return Poly.const(p.const_value() % B.const_value())
+    dv = _divide_terms(p, B)
+    if dv is not None and in_range(dv[1], B):
+        return dv[1]
+    return app("mod", p, B, sort="int")
+
+
+def sum_over(dim, f, prefix="k"):
+    """Σ over an axis of size dim; a registered compound axis major*minor is
+    summed as Σ_major Σ_minor f(major_index*minor + minor_index)"""
+    sp = split_dim(dim)
+    if sp is None:
+        return Sum(dim, f, prefix)
+    a, b = sp
+
+    def outer(i):
+        def inner(j):
+            VARBOUND[symname(j)] = b
+            return f(i * b + j)
+        return Sum(b, inner, prefix)
+    return Sum(a, outer, prefix)
+
+
+def generic_index(dim, prefix="q"):
+    sp = split_dim(dim)
+    if sp is None:
+        if P(dim).as_int() == 1:
+            return ZERO
+        return bounded_var(dim, prefix)
+    a, b = sp
+    return bounded_var(a, prefix) * b + bounded_var(b, prefix)
+
+
 def Sum(bound, f, prefix="k"):
     """Σ_{k<bound} f(k) with f a Python function of the index Poly"""
     v = fresh(prefix)
